@@ -61,29 +61,28 @@ def parse_results(data):
 
 
 def classify_crash(stderr, rc):
-    """(class, key, is_lhasa) from a sanitizer / hook report."""
+    """(class, key, is_lhasa) from a sanitizer / hook report.  A report whose faulting frame is
+    in /verif/harness code is a bug of the machinery, never a verdict about lhasa."""
     m = re.search(r'VERIF-HOOK-VIOLATION (kind=\S+(?: \S+=\S+)?)', stderr)
     if m:
         return 'hook', 'hook:' + re.sub(r'\s+', ':', m.group(1)), True
+    mu = re.search(r'(\S+?):(\d+):(\d+): runtime error: (.*)', stderr)
     m = re.search(r'ERROR: AddressSanitizer: (\S+)', stderr)
+    if mu and m and m.group(1) == 'ABRT':
+        m = None
     frames = re.findall(r'#\d+ 0x[0-9a-f]+ in (\S+) (\S+?)(?::\d+)+', stderr)
-    def repo_frames():
-        out = []
-        for fn, path in frames:
-            if '/lib/' in path or '/src/' in path:
-                if build.REPO in path:
-                    out.append(fn)
-        return out
+    src_frames = [(fn, path) for fn, path in frames if path.startswith('/') and 'libsanitizer' not in path
+                  and not path.startswith('../')]
+    repo = [fn for fn, path in src_frames if path.startswith(build.REPO + '/')]
+    first_is_harness = bool(src_frames) and src_frames[0][1].startswith(build.HARNESS)
     if m:
-        rf = repo_frames()
-        key = 'asan:%s:%s' % (m.group(1), ':'.join(rf[:2]) if rf else 'noframe')
-        return 'asan', key, True
-    m = re.search(r'(\S+?):(\d+):(\d+): runtime error: (.*)', stderr)
-    if m:
-        what = re.sub(r'0x[0-9a-f]+', 'ADDR', m.group(4))
+        key = 'asan:%s:%s' % (m.group(1), ':'.join(repo[:2]) if repo else 'noframe')
+        return 'asan', key, not (first_is_harness and not repo)
+    if mu:
+        what = re.sub(r'0x[0-9a-f]+', 'ADDR', mu.group(4))
         what = re.sub(r'\d+', 'N', what)[:60]
-        key = 'ubsan:%s:%s' % (os.path.basename(m.group(1)), re.sub(r'[^A-Za-z]+', '_', what))
-        return 'ubsan', key, True
+        key = 'ubsan:%s:%s' % (os.path.basename(mu.group(1)), re.sub(r'[^A-Za-z]+', '_', what))
+        return 'ubsan', key, not mu.group(1).startswith(build.HARNESS)
     if rc < 0:
         return 'signal', 'signal:%d' % (-rc), True
     return 'exit', 'exit:%d' % rc, False
@@ -135,7 +134,9 @@ def run_batch(exe, cases, ctx, label='dec', on_crash=None, timeout=900):
         if rc == -999:
             cls, key = 'hang', 'hang:%s' % case.method
         else:
-            cls, key, _ = classify_crash(err, rc)
+            cls, key, is_lhasa = classify_crash(err, rc)
+            if not is_lhasa:
+                raise core.HarnessFailure('harness-side failure (%s) on case %d: %s' % (key, cur, err[:1500]))
         if on_crash:
             on_crash(case, cls, key, err)
         results.pop(cur, None)
